@@ -206,6 +206,10 @@ class Interp:
             return bool(v)
         if isinstance(v, StrV):
             return self.truth(ops.cmp("!=", ops.rope_len(v.utf8.rope), 0))
+        if isinstance(v, PyDeque) and v.rest is not None:
+            if v._items:
+                return True
+            return self.bm.value_attr_mod.q_open_nonempty(self, v)
         if isinstance(v, (PyList, PyDeque, PySet)):
             return len(v.items) > 0
         if isinstance(v, PyDict):
